@@ -46,8 +46,8 @@ def gen_specs(tier, seed):
         specs = a + b
     else:
         a = [s for s in specs if sum(nwires(SHAPES[c]) for c in s) <= 6]
-        b = [s for s in specs if sum(nwires(SHAPES[c]) for c in s) == 7][::4]
-        c = [s for s in specs if sum(nwires(SHAPES[c]) for c in s) == 8][::40]
+        b = [s for s in specs if sum(nwires(SHAPES[c]) for c in s) == 7][::24]
+        c = [s for s in specs if sum(nwires(SHAPES[c]) for c in s) == 8][::400]
         specs = a + b + c
     return specs
 
